@@ -31,6 +31,7 @@
 #include "stir/Radionuclide.h"
 #include <cstring>
 #include <csignal>
+#include <sys/resource.h>
 #include <algorithm>
 #include <functional>
 using namespace stir;
@@ -647,6 +648,10 @@ int main(int argc, char** argv) {
   vh::install_terminate();
   for (int sg : { SIGSEGV, SIGBUS, SIGFPE, SIGILL, SIGABRT }) signal(sg, on_signal);
   no_oor_seg = getenv("C02_NO_OORSEG") != nullptr;
+#if !defined(__SANITIZE_ADDRESS__)
+  // a container sized from garbage (see C02-oorseg) must end in bad_alloc (= reported error), not in exhausting the machine
+  { struct rlimit rl; rl.rlim_cur = rl.rlim_max = (rlim_t)6 << 30; setrlimit(RLIMIT_AS, &rl); }
+#endif
   vh::quiet();
   if (!getenv("VERIF_STDERR")) { if (!freopen("/dev/null", "w", stderr)) {} if (!freopen("/dev/null", "w", stdout)) {} }
   if (argc < 4) return 2;
